@@ -33,3 +33,16 @@ Proof.
   exists [0; 1], false, [ODeclare 0 0 None; ODeclare 1 1 None; ODelay 10 0 false].
   split; [reflexivity|]. vm_compute. reflexivity.
 Qed.
+
+(** the hypotheses of the reachable-state theorems are satisfiable and the
+    reachable state is not trivial *)
+From PV Require Import Proofs.SchedInv Proofs.SeqInv.
+Example reachable_state_example :
+  senv_ok wenv /\ ends (run wenv wops) = [10; 16] /\
+  map (fun c => length (ch_slots c)) (q_sched (run wenv wops)) = [2%nat; 2%nat].
+Proof.
+  split; [|split; vm_compute; reflexivity].
+  unfold senv_ok, env_ok, le_opt; cbn. split; [exact I|].
+  split; [|constructor].
+  repeat constructor; cbn; unfold cfg_ok; cbn; auto with zarith.
+Qed.
